@@ -13,7 +13,7 @@ pub static DEF: PropDef = PropDef {
     rule: "random: a generated tree c/d (<=12 nodes, links included) plus a file, a link to the directory, a dangling link and entries whose names start with '-' or contain newlines/blanks x lists of 0-5 starting points drawn from: every spelling of the same directory (d, ./d, d/, d//, ./d/., d/../d, d/sub/.., absolute, c//d), '.', files, links, dangling links, missing names, duplicates x tail expression (-print0, with -maxdepth 0/1, -mindepth 1/2, -depth or a -name test) x follow mode (-P, -L) x how the list is given: as operands, through -files0-from FILE (with/without final NUL, empty names at any position), through -files0-from - (stdin; built binary). Oracle: stdout == concatenation, in the order given, of the reference walk of each starting point with its spelling as path prefix (no operand => walk of '.'); a starting point that cannot be examined => diagnostic + exit != 0 and every other one still present in order; empty names in a files0 list => a diagnostic, the rest unaffected; metamorphic: find -files0-from F EXPR and find NAMES... EXPR give the same stdout and exit class whenever all names can be written as operands. Non-trivial = >= 2 starting points with at least one non-plain spelling or a failing one, or a files0 list holding a name that cannot be an operand (leading '-', or an empty name). Distinct = distinct case JSON.",
     assumptions: &[
         "an empty -files0-from list is not compared with 'no operands' (the statement does not say)",
-        "names in a files0 list are valid UTF-8",
+        "names in a files0 list are valid UTF-8, except for one existing file whose name is not, placed last: it must be walked or reported (diagnostic + non-zero exit), the other names being unaffected",
         "the words ',' ')' '(' '!' are not used as starting-point names (they start the expression)",
         "-sorted is given so that each walk is a deterministic function of the tree",
     ],
@@ -36,7 +36,12 @@ pub struct Case {
     pub tail: u8,
     pub follow_l: bool,
     pub binary: bool,
+    /// files0 only: the list ends with the name of an existing file that is not valid UTF-8
+    #[serde(default)]
+    pub raw_last: bool,
 }
+
+const RAW_NAME: &[u8] = b"c/raw-\xe9-\xff";
 
 /// spellings of the directory c/d
 fn dir_spellings() -> Vec<String> {
@@ -85,7 +90,7 @@ pub fn gen_case(g: &mut Gen) -> Case {
         roots.push(d);
     }
     let empties = if via != 0 && g.chance(1, 3) { g.vec_of(1, 2, |g| g.usize_in(0, 5)) } else { vec![] };
-    Case { tree, roots, via, final_nul: g.chance(2, 3), empties, tail: g.weighted(&[4, 2, 2, 2, 1, 2, 1]) as u8, follow_l: g.chance(1, 4), binary: via == 2 || g.chance(1, 10) }
+    Case { tree, roots, via, final_nul: g.chance(2, 3), empties, tail: g.weighted(&[4, 2, 2, 2, 1, 2, 1]) as u8, follow_l: g.chance(1, 4), binary: via == 2 || g.chance(1, 10), raw_last: via != 0 && g.chance(1, 6) }
 }
 
 fn tail_tokens(t: u8) -> Vec<&'static str> {
@@ -169,6 +174,10 @@ pub fn check(ctx: &mut Ctx, c0: &Case) -> Outcome {
     for r in c.roots.iter_mut() {
         *r = r.replace("@ABS@", &abs);
     }
+    // a walk of '.' would meet the oddly named file as an ordinary entry
+    if c.raw_last && c.roots.iter().any(|r| r == ".") {
+        c.raw_last = false;
+    }
     let c = &c;
     ctx.fresh_case_dir();
     c.tree.build();
@@ -201,15 +210,21 @@ pub fn check(ctx: &mut Ctx, c0: &Case) -> Outcome {
             list.insert(pos, String::new());
             n_empty += 1;
         }
+        let mut blist: Vec<Vec<u8>> = list.iter().map(|n| n.as_bytes().to_vec()).collect();
+        if c.raw_last {
+            use std::os::unix::ffi::OsStrExt;
+            std::fs::write(std::ffi::OsStr::from_bytes(RAW_NAME), b"x").unwrap();
+            blist.push(RAW_NAME.to_vec());
+        }
         let mut bytes = Vec::new();
-        for (i, n) in list.iter().enumerate() {
-            bytes.extend_from_slice(n.as_bytes());
-            if i + 1 < list.len() || c.final_nul {
+        for (i, n) in blist.iter().enumerate() {
+            bytes.extend_from_slice(n);
+            if i + 1 < blist.len() || c.final_nul {
                 bytes.push(0);
             }
         }
         // a trailing empty name without final NUL is indistinguishable from "final NUL present"
-        if !c.final_nul && list.last().map_or(false, |l| l.is_empty()) {
+        if !c.final_nul && !c.raw_last && list.last().map_or(false, |l| l.is_empty()) {
             n_empty -= 1;
         }
         if c.via == 1 {
@@ -242,6 +257,25 @@ pub fn check(ctx: &mut Ctx, c0: &Case) -> Outcome {
         1 => "files0-file",
         _ => "files0-stdin",
     };
+    // the name that is not valid UTF-8 (last in the list): either walked like any other existing file
+    // (its path, byte for byte, ends the output where the tail expression selects a depth-0 file) or
+    // reported as a starting point that cannot be examined - never passed over in silence
+    let mut out = out;
+    let mut raw_unexamined = false;
+    if c.raw_last && c.via != 0 {
+        let mut rec = RAW_NAME.to_vec();
+        rec.push(0);
+        if out.ends_with(&rec) && !exp.out.ends_with(&rec) {
+            out.truncate(out.len() - rec.len());
+        } else {
+            raw_unexamined = true;
+            if status == 0 || err.is_empty() {
+                let e = fail(format!("C18:name-that-is-not-valid-utf8-skipped-silently:{via_s}"), format!("find {args:?}   [{via_s}; list {list:?} + {:?}]\nexit {status}\nstderr {:?}\nstdout {:?}", lossy(RAW_NAME), lossy(&err), lossy(&out)));
+                cleanup(ctx);
+                return e;
+            }
+        }
+    }
     let desc = |extra: &str| format!("find {args:?}   [{via_s}; list {list:?}]\nexit {status}\nstderr {:?}\nexpected stdout {:?}\nobserved stdout {:?}\n{extra}", lossy(&err), lossy(&exp.out), lossy(&out));
     let result = (|| {
         if out != exp.out {
@@ -263,7 +297,7 @@ pub fn check(ctx: &mut Ctx, c0: &Case) -> Outcome {
             };
             return fail(format!("C18:{what}:{via_s}"), desc(""));
         }
-        let should_fail = exp.failing > 0 || exp.loops > 0;
+        let should_fail = exp.failing > 0 || exp.loops > 0 || raw_unexamined;
         if should_fail && (status == 0 || err.is_empty()) {
             return fail(format!("C18:unexaminable-starting-point-not-reported:{via_s}"), desc(""));
         }
@@ -274,7 +308,7 @@ pub fn check(ctx: &mut Ctx, c0: &Case) -> Outcome {
             return fail("C18:empty-name-not-diagnosed", desc(""));
         }
         // metamorphic: the same names as operands
-        let expressible = c.via != 0 && n_empty == 0 && c.roots.iter().all(|r| !r.starts_with('-') && !["!", "(", ")", ","].contains(&r.as_str()));
+        let expressible = c.via != 0 && n_empty == 0 && !c.raw_last && c.roots.iter().all(|r| !r.starts_with('-') && !["!", "(", ")", ","].contains(&r.as_str()));
         if expressible {
             let mut a2: Vec<String> = vec![];
             if c.follow_l {
